@@ -103,7 +103,9 @@ CHECKS = {
               "distinct for all names; the generator-internal names, the shapes of user-derived names and the scope rows of every "
               "function generated for the battery are regenerated from the generated code on every run and checked by kernel "
               "evaluation. Tie + oracle: renaming equivariance of dump / load on class models renamed into adversarial names drawn from "
-              "those tables, symtable scope check of every captured generated function, Lean pyRepr/pyUnquote vs repr/literal_eval. "
+              "those tables (incl. aliases spelled like other fields of the class, and skip-condition operands that are instances of "
+              "user-defined int / str subclasses vs the equal plain values), symtable scope check of every captured generated function, "
+              "Lean pyRepr/pyUnquote vs repr/literal_eval. "
               "For the generator of the dump function (dump_func_for_dataclass) there is a Lean model of the generator itself, at the "
               "level of the source text it writes (structured statement forms + printer + Python's definite-assignment scoping rule): "
               "theorem C15_gendump_well_scoped - the body generated for EVERY class (any fields, keys, paths, catch-all, skip conditions, "
@@ -118,7 +120,8 @@ CHECKS = {
               "is omitted (factory product fresh per instance), supplied / assigned values pass unchanged, unpaired and read-only "
               "properties and other attributes untouched (frame lemma), the IDE-helper style; witness of the repaired plain-default "
               "defect under a quirk flag; model tied to the code over styled and wild class bodies x annotation kinds x default kinds x "
-              "argument subsets in forked children"),
+              "argument subsets x spellings of the public names (trailing / interior underscores; only leading underscores are dropped: "
+              "C16_public_name_keeps_suffix) x setter functions under user decorators (must be entered through them) in forked children"),
         technique='Lean 4 proof over a hand model + differential correspondence + quirk probe', ref='4 C16'),
     'C18': dict(
         text=("Lean theorems over a state machine of Env (environ copy, var_names, cleaned_to_env) and the generated __init__: in every "
